@@ -30,6 +30,11 @@ CHECKS = {
                 text='Every index-set configuration (insertion orders included) in the bound is executed symbolically on the real UnitFilter/UnitFilterBlocked/SlipFilter/MeanFilter/FilterChain/FilterSequence/TupleFilter classes; z3 decides over all real vectors, prescribed values, normals and weights that constraints hold exactly, unconstrained entries are unchanged, second application is the identity, filtered matrix rows are unit rows.',
                 note='Trusted: SymReal instantiation, DAG printer, z3 5.1.0. Real arithmetic; non-zero normals, positive mean-filter weights; ignore_nans off. Outside: global (MPI) filters, rounding.',
                 ref='3/C06'),
+    'C07': dict(cat='other', engine='E2',
+                technique='bounded symbolic execution of the real IterativeSolver stopping logic and of real Richardson/PCG/BiCGStab/PCR objects over a symbolic real scalar; z3 decides status => predicate implications and reported-defect == true-residual identities',
+                text='Partial (stated): (A) 12 scenarios drive the real stopping-criterion state machine to every status with symbolic tolerances/defects; z3 decides that each returned status implies its documented predicate under the recorded path conditions. (B) real solver objects on symbolic 2x2 (thorough 3x3) systems: final defect == |b-Ax| of the returned vector, rhs untouched, apply ignores / correct honours the start vector, repeated solves coincide (incl. stagnation-counter reset).',
+                note='Trusted: SymReal, DAG printer, z3 5.1.0, sqrt as algebraic unknown. Exact real arithmetic; iteration limit < n for Krylov methods (exact termination is degenerate). Outside: convergence to reference solutions, conditioning, GMRES/IDRS/RGCR/Chebyshev families, rounding drift of recurrence residuals.',
+                ref='3/C07'),
     'C08': dict(cat='other', engine='E2',
                 technique='bounded symbolic execution of the real preconditioner objects over a symbolic real scalar; z3 (NRA) decides multiply-back identities against textbook operators and an independent dense ILU(p)',
                 text='For every square pattern with diagonal (n<=3), fill level and omega, the factory-built Jacobi/SOR/SSOR/ILU(p)/polynomial/scale/diagonal preconditioners are executed symbolically; z3 decides the defining operator identity over all real matrix values and inputs, input immutability, filter-last, and freshness after init_numeric.',
